@@ -13,7 +13,7 @@ RULE = ('(i) algebra: every expression tree of depth <= 2 over 10 atoms (flags, 
         'agree with an independent evaluator, for conditions built afresh and for conditions built at time 0 and kept (including '
         'time == now built at that very time); (ii)/(iii) dynamics: every tree x every change history of <= 2 (quick) / 3 (thorough) '
         'steps by one or two helper activities at times {0,1,2} (including changes reverted within one time step by another '
-        'activity) x 1-2 waiters: a wait returns only while its expression is true and no waiter is left waiting at the end of '
+        'activity) x 1-2 waiters: a wait returns only while its expression is true, never within the activation that started it, and no waiter is left waiting at the end of '
         'a time step in which its expression holds; non-trivial = the waiter had to wait and some atom changed')
 ASSUMPTIONS = [
     'atoms: flags A,B; X>=1, X==0, X>=Y (two tracked values); task.done; time>=1, time<2, time==1 (not invertible); resources level r >= {a: 1}',
@@ -351,9 +351,14 @@ def judge_dyn(program, faults=()):
             v.setdefault('done:t2', False)
             if not ev(tree, v):
                 msgs.append('%s: await returned at %r while the expression %r is false (%r)' % (act, now, tree, data))
-            st = next(r for r in log[:idx][::-1] if r[0] == 'start' and r[1] == act and r[2] == pc)
+            si = next(i for i in range(idx - 1, -1, -1) if log[i][0] == 'start' and log[i][1] == act and log[i][2] == pc)
+            st = log[si]
             if st[3] != now:
                 waited = True
+            elif ctx.log_act[si] == ctx.log_act[idx]:
+                # `await c` always lets other activities run at least once (the loop's FIFO order is monitored, so one
+                # suspension is enough): the wait may not begin and end within one activation
+                msgs.append('%s: await of %r completed within the activation that started it' % (act, tree))
     # (iii) never left waiting at the end of a time step in which the expression holds
     for i, (k, t, loglen, snap) in enumerate(snaps):
         last_of_step = i + 1 == len(snaps) or snaps[i + 1][1] != t
